@@ -18,11 +18,16 @@ for sid in sys.argv[1:]:
         r = sh(f'cd {wt} && /venv/bin/python -m pytest -ra -q -p no:cacheprovider --timeout=900 --continue-on-collection-errors --junitxml={xml}', env=env)
         c = sh(f'/verif/tools_compare_baseline.py {xml}')
         res = c.stdout.strip().splitlines()
-        meta = json.load(open(f'{d}/meta.json'))
-        meta['suite'] = {'summary': res[0] if res else 'no output', 'missing': [l.strip() for l in res[1:]], 'pytest_tail': r.stdout.strip().splitlines()[-1:] }
-        meta['kept'] = (c.returncode == 0)
-        json.dump(meta, open(f'{d}/meta.json', 'w'), indent=1)
-        print(sid, meta['suite']['summary'], meta['suite']['missing'][:3])
+        suite = {'summary': res[0] if res else 'no output', 'missing': [l.strip() for l in res[1:]], 'pytest_tail': r.stdout.strip().splitlines()[-1:]}
+        if os.environ.get('SUITE_SEPARATE'):
+            # (another tool is rewriting meta.json right now: park the result, merged later by tools_merge_suite.py)
+            json.dump({'suite': suite, 'kept': c.returncode == 0}, open(f'{d}/suite.json', 'w'), indent=1)
+        else:
+            meta = json.load(open(f'{d}/meta.json'))
+            meta['suite'] = suite
+            meta['kept'] = (c.returncode == 0)
+            json.dump(meta, open(f'{d}/meta.json', 'w'), indent=1)
+        print(sid, suite['summary'], suite['missing'][:3])
         os.remove(xml)
     finally:
         sh(f'git -C /repo worktree remove --force {wt}')
